@@ -168,7 +168,7 @@ def enc(clsname, keylens):
     return h
 
 
-def enc_after_refused(clsname, keylens):
+def enc_after_refused(clsname, keylens, pinlens=(4, 12)):
     """history: data that is not a whole number of cipher blocks is handed to encrypt()/decrypt() under a key (refused with ValueError by
     the library), then a PIN block is encrypted and read back under the same key in the same process"""
     def h():
@@ -176,7 +176,7 @@ def enc_after_refused(clsname, keylens):
         cls = getattr(pb, clsname)
         is0 = clsname.startswith('Iso0')
         bs = 8 if is0 else 16
-        lp = choose('pinlen', [4, 12])
+        lp = choose('pinlen', list(pinlens))
         kl = choose('keybytes', keylens)
         nj = choose('refused-bytes', [1, bs - 1, bs + 3])
         direction = choose('refused-call', ['encrypt', 'decrypt', 'both'])
@@ -192,7 +192,7 @@ def enc_after_refused(clsname, keylens):
         for d in (['encrypt', 'decrypt'] if direction == 'both' else [direction]):
             try:
                 getattr(cls, d)(key, junk.__sunhexlify__())
-            except ValueError:
+            except Exception:          # what the refused call itself does is not part of the claim
                 pass
         with guard(clsname, 'C13/enc-exception', rp):
             obj = cls(pin, card_number=pan) if is0 else cls(pin)
@@ -213,6 +213,7 @@ def enc_after_refused(clsname, keylens):
 
 
 def obligations(tier):
+    pl = (4, 12) if tier == 'quick' else tuple(range(4, 13))
     return [
         Ob('iso0/clear', iso0(), 300, 'PIN length 4..12 x PAN length 13..19 (all 63 pairs), all digit values', _funcs),
         Ob('iso0/two-cards-one-process', iso0_two_cards(), 300, 'two card numbers (lengths 16/16, 14/13, 19/16; all digit values) one after the other, PIN length 4/6/12', _funcs),
@@ -220,8 +221,8 @@ def obligations(tier):
         Ob('iso4/clear/random-drawn', iso4(False), 300, 'PIN length 4..12, all digits, fill drawn from secrets', _funcs),
         Ob('iso0/tdes', enc('Iso0TDESPinBlockWithVisaPVV', [16, 24]), 300, 'PIN 4..12, PAN 16 digits, all keys of 16 / 24 bytes', _funcs),
         Ob('iso4/aes', enc('Iso4AESPinBlockWithVisaPVV', [16, 24, 32]), 300, 'PIN 4/6/9/12 digits, all keys of 16 / 24 / 32 bytes', _funcs),
-        Ob('iso0/tdes/after-refused-data', enc_after_refused('Iso0TDESPinBlockWithVisaPVV', [16, 24]), 300,
-           'history: encrypt/decrypt/both refuse 1, 7 or 11 arbitrary bytes under a key, then PIN 4/12 digits under the same key (all keys of 16 / 24 bytes)', _funcs),
-        Ob('iso4/aes/after-refused-data', enc_after_refused('Iso4AESPinBlockWithVisaPVV', [16, 32]), 300,
-           'history: encrypt/decrypt/both refuse 1, 15 or 19 arbitrary bytes under a key, then PIN 4/12 digits under the same key (all keys of 16 / 32 bytes)', _funcs),
+        Ob('iso0/tdes/after-refused-data', enc_after_refused('Iso0TDESPinBlockWithVisaPVV', [16, 24], pl), 300,
+           'history: encrypt/decrypt/both refuse 1, 7 or 11 arbitrary bytes under a key, then PIN %s digits under the same key (all keys of 16 / 24 bytes)' % ('4/12' if tier == 'quick' else '4..12'), _funcs),
+        Ob('iso4/aes/after-refused-data', enc_after_refused('Iso4AESPinBlockWithVisaPVV', [16, 32] if tier == 'quick' else [16, 24, 32], pl), 300,
+           'history: encrypt/decrypt/both refuse 1, 15 or 19 arbitrary bytes under a key, then PIN %s digits under the same key (all keys of %s bytes)' % (('4/12', '16 / 32') if tier == 'quick' else ('4..12', '16 / 24 / 32')), _funcs),
     ]
